@@ -230,7 +230,7 @@ pub fn worker_main(spec: &WorkerSpec) -> i32 {
             crate::dispatch::exec_run(&spec.property, &spec.config, spec.seed, run, &mut stats);
         let mut l = out.lock();
         for v in violations {
-            let _ = writeln!(l, "V {}", v.to_json().to_string());
+            let _ = writeln!(l, "V {run} {}", v.to_json().to_string());
         }
         if spec.digests {
             let _ = writeln!(l, "E {run} {digest:016x}");
@@ -311,7 +311,7 @@ fn command_for(launcher: &Launcher, args: &[String]) -> Command {
 #[derive(Debug, Default)]
 pub struct WorkerResult {
     pub stats: Option<Stats>,
-    pub violations: Vec<Violation>,
+    pub violations: Vec<(Option<u64>, Violation)>,
     pub digests: Vec<(u64, u64)>,
     /// run (and, in trace mode, case) in flight when the process died
     pub crashed_run: Option<u64>,
@@ -371,9 +371,10 @@ pub fn run_worker(launcher: &Launcher, spec: &WorkerSpec) -> WorkerResult {
                 last_case = None;
             }
             "V" => {
-                if let Ok(j) = J::parse(rest) {
+                let (run, json) = rest.split_once(' ').unwrap_or(("", rest));
+                if let Ok(j) = J::parse(json) {
                     if let Ok(v) = Violation::from_json(&j) {
-                        res.violations.push(v);
+                        res.violations.push((run.parse().ok(), v));
                     }
                 }
             }
@@ -432,7 +433,7 @@ pub struct Batch {
 
 pub struct BatchResult {
     pub stats: Stats,
-    pub violations: Vec<Violation>,
+    pub violations: Vec<(Option<u64>, Violation)>,
     /// (run, case in flight if known, exit status, stderr tail)
     pub crashes: Vec<(u64, Option<J>, String, String)>,
     pub digests: Vec<(u64, u64)>,
